@@ -1,10 +1,15 @@
 (* Properties_C10.v — C10: hostile input never crashes, misbehaves or hangs.
    Statements only (over terms regenerated from /repo on every run).
-   PARTIAL: termination of read_session for every byte string and memory-safety of the container
-   copy are decided by differential execution under ASan/UBSan + watchdog on truncations, field
-   mutations and hand-assembled hostile headers; they are not theorems. *)
+   C10_decoders_memory_safe: for EVERY object class and EVERY input stream (any bytes, any declared
+   sizes and lengths, either stream flavour) decoding into a fresh object never writes beyond the
+   capacity of a destination container — by a reflective check on the read programs regenerated
+   from /repo (Lib/SafeFacts.rd_safe), proved sound once (rd_safe_sound) and evaluated in the kernel.
+   PARTIAL: termination of read_session for every byte string and memory-safety outside the
+   decoders (container copy in UncompressedFile, zlib) are decided by differential execution under
+   ASan/UBSan + watchdog on truncations, field mutations and hand-assembled hostile headers. *)
 From Coq Require Import String List Bool.
-From VB Require Import Threads SafeEq.
+From VB Require Import Base IR Sem Tables SafeFacts.
+From VB Require Import Classes Consts Common Threads SafeEq.
 Import ListNotations.
 Local Open Scope string_scope.
 
@@ -18,3 +23,15 @@ Theorem C10_end_of_stream_on_every_exit :
   forallb (fun x => negb (is_read_thread (sk_name x)) || (sk_handler_eof x && sk_normal_eof x && sk_inner x)) thread_skeletons = true.
 Proof. exact read_workers_always_declare_end. Qed.
 Print Assumptions C10_end_of_stream_on_every_exit.
+
+Theorem C10_decoders_memory_safe : forall c, In c object_classes ->
+  forall i, dec cs scan_p default_cap c (fresh cs c) i <> Err EOOBWrite.
+Proof.
+  intros c Hc i. apply decoders_memory_safe; [exact Hc|intros H; exact H|].
+  exact (forallb_minus (FreshFacts.fresh_wf_b cs) _ _ fresh_all_wf c Hc (fun H => H)).
+Qed.
+Print Assumptions C10_decoders_memory_safe.
+
+(* the check is not vacuous: there are read programs with length-driven copies, e.g. AppText *)
+Example C10_nonvacuous : rd_safe cs (Rd (class_of_name "AppText")) = true /\ (100 <? Z.of_nat (length object_classes))%Z = true.
+Proof. vm_compute. split; reflexivity. Qed.
